@@ -1,9 +1,14 @@
 import Glom.Spec.C19
+import Glom.Spec.C19Face
+import Glom.Model.C19Env
 /-
   Helper lemmas for C19: under well-formed facts the middleware selects the
   texts the reference names and hands them to the parsers / loaders the
   reference names.
 -/
+set_option linter.unusedSimpArgs false
+set_option linter.unusedVariables false
+
 namespace Glom.C19
 
 variable {T S R : Type}
@@ -322,75 +327,825 @@ theorem handleTarget_empty (F : Facts) (X : Ext T S R) (o : Option String) (fmt 
     (h : truthy o = false) : handleTarget F X o fmt = .ok X.emptyTarget := by
   unfold handleTarget; simp [h]
 
-theorem glomCli_render (X : Ext T S R) (t : T) (s : S) (r : R) (indent : Int) (scalar : Bool)
-    (h : X.glom t s = .ok r) :
-    glomCli X t s indent scalar = (match refRender X r indent scalar with
+/-- without --debug / --inspect the spec is used as it is -/
+theorem wrapSpec_plain (X : Ext T S R) (so : Bool) (s : S) : wrapSpec X so s false false = s := by
+  simp [wrapSpec]
+
+theorem glomCli_render (X : Ext T S R) (so : Bool) (t : T) (s : S) (r : R) (indent : Int) (scalar : Bool)
+    (h : X.glom t s = .ok r) (hq : X.printed t s = "") :
+    glomCli X so t s indent false false scalar = (match refRender X r indent scalar with
       | some out => .exit 0 out
       | none => match X.dumps r (if indent == 0 then none else some indent) with
         | .error c => .exc c
         | .ok o => .exit 0 (o ++ "\n")) := by
   unfold glomCli refRender
-  rw [h]
+  simp only [wrapSpec_plain, h, hq, String.empty_append]
   by_cases hs : (scalar && X.isScalar r) = true
   · simp [hs]
   · simp only [hs, Bool.false_eq_true, if_false]
     cases X.dumps r (if indent == 0 then none else some indent) <;> rfl
 
+/-- trusted: the library call prints nothing for a literal spec (only `Inspect` echoes) -/
+def QuietOk (X : Ext T S R) : Prop := ∀ st s t, refSpecOf X st = .ok s → X.printed t s = ""
+
 /-! ### deliveries: every way of handing the same spec and target to the command -/
 
-inductive SpecVia where
-  | argv
-  | file (path : String)
-
-inductive TargetVia where
-  | argv
-  | file (path : String)
-  | dashArg            -- `glom SPEC -`
-  | dashFile           -- `--target-file -`
-  | piped              -- nothing given, stdin is not a tty
-
-structure Request where
-  specText : String
-  targetText : String
-  sv : SpecVia
-  tv : TargetVia
-  targetFormat : Option String
-  indent : Option Int
-  scalar : Bool
-
-def Request.argv (q : Request) : Argv :=
-  let sp := match q.sv with | .argv => q.specText | .file _ => ""
-  { posargs := (match q.tv with
-      | .argv => [sp, q.targetText]
-      | .dashArg => [sp, "-"]
-      | _ => (match q.sv with | .argv => [sp] | .file _ => []))
-    targetFile := (match q.tv with | .file p => some p | .dashFile => some "-" | _ => none)
-    targetFormat := q.targetFormat
-    specFile := (match q.sv with | .file p => some p | .argv => none)
-    specFormat := none
-    indent := q.indent
-    scalar := q.scalar }
-
-/-- standard input carries the target when it is the chosen channel, anything otherwise -/
-def Request.world (q : Request) (junk : String) (tty : Bool) : World :=
-  match q.tv with
-  | .dashArg | .dashFile => ⟨q.targetText, tty, none⟩
-  | .piped => ⟨q.targetText, false, none⟩
-  | _ => ⟨junk, tty, none⟩
+/-- the request the property speaks about: default spec format, no --debug / --inspect -/
+def Request.Plain (q : Request) : Prop :=
+  (q.specFormat == none || q.specFormat == some "python") = true ∧ q.debug = false ∧ q.inspect = false
 
 /-- the files hold the texts; file names are non-empty and not `-` -/
 def Request.FilesOk (q : Request) (X : Ext T S R) : Prop :=
   (match q.sv with | .file p => p.isEmpty = false ∧ X.readFile p = some q.specText | .argv => True) ∧
   (match q.tv with | .file p => p.isEmpty = false ∧ p ≠ "-" ∧ X.readFile p = some q.targetText | _ => True)
 
-theorem request_expect_texts (X : Ext T S R) (q : Request) (junk : String) (tty : Bool)
+theorem request_expect_texts (X : Ext T S R) (q : Request) (junk : String) (tty : Bool) (so : Bool)
     (hs : q.specText.isEmpty = false) (ht : q.targetText.isEmpty = false)
     (hdash : q.targetText ≠ "-") (hfiles : q.FilesOk X) :
     refSpecText X q.argv = some q.specText ∧
-    refTargetText X q.argv (q.world junk tty) = .text q.targetText := by
+    refTargetText X q.argv (q.world junk tty so) = .text q.targetText := by
   obtain ⟨hf1, hf2⟩ := hfiles
   cases hsv : q.sv <;> cases htv : q.tv <;>
     simp_all [Request.argv, Request.world, refSpecText, refTargetText, refStdin, posTexts, nonEmpty, Option.filter]
 
+/-! ### delivery independence -/
+
+/-- what the command does with a spec TEXT and a target TEXT, whatever brought them -/
+def Request.direct (F : Facts) (X : Ext T S R) (q : Request) (so : Bool) : Outcome :=
+  let spec : Except Outcome S :=
+    if q.specText.isEmpty then .ok X.emptySpec
+    else parseSpec F X (q.specFormat.getD F.specDefault) q.specText
+  match spec with
+  | .error o => o
+  | .ok spec =>
+    match handleTarget F X (some q.targetText) (q.targetFormat.getD F.targetDefault) with
+    | .error o => o
+    | .ok t => glomCli X so t spec (q.indent.getD F.indentDefault) q.debug q.inspect q.scalar
+
+theorem getSpec_request (F : Facts) (X : Ext T S R) (q : Request) (hfiles : q.FilesOk X) :
+    getSpec F X q.argv =
+      (if q.specText.isEmpty then .ok X.emptySpec
+       else parseSpec F X (q.specFormat.getD F.specDefault) q.specText) := by
+  obtain ⟨hf1, _⟩ := hfiles
+  unfold getSpec
+  cases hsv : q.sv with
+  | argv =>
+    cases htv : q.tv <;>
+      (by_cases he : q.specText.isEmpty = true <;>
+        simp [Request.argv, posTexts, truthy, hsv, htv, he])
+  | file p =>
+    rw [hsv] at hf1
+    obtain ⟨hp, hrd⟩ := hf1
+    cases htv : q.tv <;>
+      (by_cases he : q.specText.isEmpty = true <;>
+        simp [Request.argv, posTexts, truthy, hsv, htv, he, hp, hrd])
+
+theorem getTargetText_request (F : Facts) (X : Ext T S R) (q : Request) (junk : String) (tty so : Bool)
+    (ht : q.targetText.isEmpty = false) (hdash : q.targetText ≠ "-") (hfiles : q.FilesOk X) :
+    getTargetText F X q.argv (q.world junk tty so) = .ok (some q.targetText) := by
+  obtain ⟨_, hf2⟩ := hfiles
+  unfold getTargetText
+  cases hsv : q.sv <;> cases htv : q.tv <;>
+    simp_all [Request.argv, Request.world, posTexts, truthy, readStdin]
+
+/-- every delivery of a request does what `direct` says -/
+theorem cliMain_request (F : Facts) (X : Ext T S R) (q : Request) (junk : String) (tty so : Bool)
+    (ht : q.targetText.isEmpty = false) (hdash : q.targetText ≠ "-") (hfiles : q.FilesOk X) :
+    cliMain F X q.argv (q.world junk tty so) = q.direct F X so := by
+  unfold cliMain Request.direct
+  rw [getSpec_request F X q hfiles, getTargetText_request F X q junk tty so ht hdash hfiles]
+  have hw : (q.world junk tty so).stdinOpen = so := by
+    cases htv : q.tv <;> simp [Request.world, htv]
+  have ha : q.argv.targetFormat = q.targetFormat ∧ q.argv.indent = q.indent ∧ q.argv.scalar = q.scalar ∧
+      q.argv.debug = q.debug ∧ q.argv.inspect = q.inspect := by simp [Request.argv]
+  simp only [runWith, hw, ha.1, ha.2.1, ha.2.2.1, ha.2.2.2.1, ha.2.2.2.2]
+  generalize (if q.specText.isEmpty = true then (Except.ok X.emptySpec : Except Outcome S)
+    else parseSpec F X (q.specFormat.getD F.specDefault) q.specText) = sp
+  cases sp with
+  | error o => rfl
+  | ok spec => cases handleTarget F X (some q.targetText) (q.targetFormat.getD F.targetDefault) <;> rfl
+
+theorem filesOk_of_B (X : Ext T S R) (q : Request) (h : q.filesOkB X = true) : q.FilesOk X := by
+  unfold Request.filesOkB at h
+  unfold Request.FilesOk
+  cases hsv : q.sv <;> cases htv : q.tv <;> simp_all
+
+/-! ### the complete decision table: the facts-parametric model is the documented command -/
+
+theorem parseSpec_total {F : Facts} (w : WFParts F) (X : Ext T S R) (hr : ReprOk X) (fmt st : String) :
+    parseSpec F X fmt st = refParse X fmt st := by
+  by_cases h1 : fmt = "python"
+  · subst h1; rw [parse_default w X hr st]; simp [refParse]
+  · by_cases h2 : fmt = "json"
+    · subst h2; simp [parseSpec, refParse, w.specBranches, w.reprBranches]
+    · by_cases h3 : fmt = "python-full"
+      · subst h3; simp [parseSpec, refParse, w.specBranches, w.reprBranches]
+      · have e1 : ¬ "python" = fmt := fun h => h1 h.symm
+        have e2 : ¬ "json" = fmt := fun h => h2 h.symm
+        have e3 : ¬ "python-full" = fmt := fun h => h3 h.symm
+        simp [parseSpec, refParse, w.specBranches, h1, h2, h3, e1, e2, e3]
+
+theorem isTextReadErr_eq (X : Ext T S R) (c : String) : isTextReadErr X c = textReadErr X c := rfl
+
+theorem getSpec_total {F : Facts} (w : WFParts F) (X : Ext T S R) (hr : ReprOk X)
+    (hrd : ∀ p, X.readFile p = none → isTextReadErr X (X.readErr p) = true) (a : Argv) :
+    getSpec F X a = refSpecMain X a := by
+  unfold getSpec refSpecMain
+  dsimp only
+  rw [w.specDefault]
+  cases hp : nonEmpty (posTexts a).1 with
+  | some st =>
+    obtain ⟨hp', hne⟩ := nonEmpty_some hp
+    have h1 := truthy_of_some hp
+    cases hf : nonEmpty a.specFile with
+    | some p => simp [h1, truthy_of_some hf]
+    | none =>
+      simp only [h1, truthy_of_none hf, Bool.and_false, Bool.false_eq_true, if_false]
+      rw [hp']
+      simp only [truthy, hne, Bool.not_false, Bool.not_true, Bool.false_eq_true, if_false, Option.getD_some]
+      exact parseSpec_total w X hr _ st
+  | none =>
+    have h1 := truthy_of_none hp
+    cases hf : nonEmpty a.specFile with
+    | some p =>
+      obtain ⟨hf', hne⟩ := nonEmpty_some hf
+      simp only [h1, truthy_of_some hf, Bool.false_and, Bool.false_eq_true, if_false, if_true]
+      rw [hf']
+      simp only [Option.getD_some]
+      cases hrdp : X.readFile p with
+      | none => simp [readFail, caught_read X _ _ w.specRead (hrd p hrdp)]
+      | some st =>
+        simp only
+        by_cases he : st.isEmpty = true
+        · simp [truthy, he]
+        · simp only [truthy, he, Bool.not_false, Bool.not_true, Bool.false_eq_true, if_false, Option.getD_some]
+          exact parseSpec_total w X hr _ st
+    | none =>
+      simp [h1, truthy_of_none hf]
+
+theorem handleTarget_total {F : Facts} (w : WFParts F) (X : Ext T S R) (hl : LoadErrOk F X)
+    (fmt : Option String) (tt : String) :
+    handleTarget F X (some tt) (fmt.getD F.targetDefault) = refLoad X (fmt.getD "json") tt := by
+  unfold refLoad
+  by_cases he : tt.isEmpty = true
+  · simp [handleTarget, truthy, he]
+  · have he' : tt.isEmpty = false := by simpa using he
+    simp only [he, Bool.false_eq_true, if_false]
+    cases hk : refLoaderKind (fmt.getD "json") with
+    | some k =>
+      obtain ⟨href, hmem⟩ := handleTarget_ref w X ⟨[], none, fmt, none, none, none, false, false, false⟩ tt he' k hk
+      simp only at href hmem
+      rw [href]
+      cases hld : X.load k tt with
+      | ok t => simp [liftLoad, hld]
+      | error c => simp [liftLoad, hld, caught_load w.loadCatch X hl _ k tt c hmem hld]
+    | none =>
+      unfold handleTarget
+      rw [w.targetDefault, w.targetLoaders]
+      simp only [truthy, he', Bool.not_false, Bool.not_true, Bool.false_eq_true, if_false]
+      unfold refLoaderKind at hk
+      generalize fmt.getD "json" = f at hk ⊢
+      by_cases h1 : f = "json"
+      · simp [h1] at hk
+      · by_cases h2 : f = "yaml"
+        · simp [h2] at hk
+        · by_cases h3 : f = "yml"
+          · simp [h3] at hk
+          · by_cases h4 : f = "toml"
+            · simp [h4] at hk
+            · by_cases h5 : f = "python"
+              · simp [h5] at hk
+              · have e1 : ¬ "json" = f := fun h => h1 h.symm
+                have e2 : ¬ "yaml" = f := fun h => h2 h.symm
+                have e3 : ¬ "yml" = f := fun h => h3 h.symm
+                have e4 : ¬ "toml" = f := fun h => h4 h.symm
+                have e5 : ¬ "python" = f := fun h => h5 h.symm
+                simp [h1, h2, h3, h4, h5, e1, e2, e3, e4, e5]
+
+/-- the middleware's target half as one function -/
+def modelTarget (F : Facts) (X : Ext T S R) (a : Argv) (w : World) : Except Outcome T :=
+  match getTargetText F X a w with
+  | .error o => .error o
+  | .ok text => handleTarget F X text (a.targetFormat.getD F.targetDefault)
+
+theorem readStdin_total {F : Facts} (wf : WFParts F) (X : Ext T S R) (w : World) (hr : ReadErrOk X w) :
+    readStdin F X w = (if w.stdinErr.isSome then .error (.usage .stdinUnreadable) else .ok (some w.stdin)) := by
+  unfold readStdin
+  cases he : w.stdinErr with
+  | none => simp
+  | some c => simp [readFail, caught_read X _ c wf.stdinRead (hr.stdin c he)]
+
+theorem modelTarget_total {F : Facts} (wf : WFParts F) (X : Ext T S R) (hl : LoadErrOk F X)
+    (a : Argv) (w : World) (hr : ReadErrOk X w) :
+    modelTarget F X a w = refTargetMain X a w := by
+  unfold modelTarget refTargetMain getTargetText
+  dsimp only
+  have hstd := readStdin_total wf X w hr
+  have hempty : handleTarget F X (some "") (a.targetFormat.getD F.targetDefault) = .ok X.emptyTarget := by
+    simp [handleTarget, truthy]
+  cases hp : nonEmpty (posTexts a).2 with
+  | some t =>
+    obtain ⟨hp', hne⟩ := nonEmpty_some hp
+    have h1 := truthy_of_some hp
+    cases hf : nonEmpty a.targetFile with
+    | some p => simp [h1, truthy_of_some hf]
+    | none =>
+      have h2 := truthy_of_none hf
+      have hfd := not_dash_of_nonEmpty_none hf
+      rw [h1, h2, hfd, hp']
+      by_cases hd : t = "-"
+      · subst hd
+        simp only [Bool.and_false, Bool.false_eq_true, if_false, beq_self_eq_true, Bool.true_or, if_true, hstd]
+        cases w.stdinErr <;> simp [handleTarget_total wf X hl]
+      · simp [hd, handleTarget_total wf X hl, hne]
+  | none =>
+    have h1 := truthy_of_none hp
+    have hpd := not_dash_of_nonEmpty_none hp
+    cases hf : nonEmpty a.targetFile with
+    | some p =>
+      obtain ⟨hf', hne⟩ := nonEmpty_some hf
+      have h2 := truthy_of_some hf
+      rw [h1, h2, hpd, hf']
+      by_cases hd : p = "-"
+      · subst hd
+        simp only [Bool.false_and, Bool.false_eq_true, if_false, beq_self_eq_true, Bool.or_true, if_true, hstd]
+        cases w.stdinErr <;> simp [handleTarget_total wf X hl]
+      · simp only [Bool.false_and, Bool.false_eq_true, if_false, Option.some.injEq, hd, beq_iff_eq,
+          Bool.or_false, if_true, Option.getD_some]
+        cases hrdp : X.readFile p with
+        | none => simp [hd, readFail, caught_read X _ _ wf.targetRead (hr.file p hrdp)]
+        | some t => simp [hd, handleTarget_total wf X hl]
+    | none =>
+      have h2 := truthy_of_none hf
+      have hfd := not_dash_of_nonEmpty_none hf
+      rw [h1, h2, hpd, hfd]
+      cases htty : w.stdinTty with
+      | true =>
+        simp only [Bool.false_and, Bool.false_eq_true, if_false, Bool.or_self, Bool.not_true,
+          Bool.and_false, if_true]
+        rw [handleTarget_empty F X _ _ h1]
+        simp [refLoad]
+      | false =>
+        simp only [Bool.false_and, Bool.false_eq_true, if_false, Bool.or_self, Bool.not_false,
+          Bool.and_self, if_true, hstd]
+        cases w.stdinErr <;> simp [handleTarget_total wf X hl]
+
+theorem glomCli_total {F : Facts} (wf : WFParts F) (X : Ext T S R) (a : Argv) (w : World) (t : T) (s : S) :
+    glomCli X w.stdinOpen t s (a.indent.getD F.indentDefault) a.debug a.inspect a.scalar = refRun X a w t s := by
+  unfold glomCli refRun wrapSpec
+  rw [wf.indentDefault]
+  rfl
+
+theorem cliMain_total {F : Facts} (wf : WFParts F) (X : Ext T S R) (hr : ReprOk X) (hl : LoadErrOk F X)
+    (a : Argv) (w : World) (hrd : ReadErrOk X w) : cliMain F X a w = refMain X a w := by
+  have hs := getSpec_total wf X hr hrd.file a
+  have ht := modelTarget_total wf X hl a w hrd
+  unfold cliMain refMain
+  rw [hs]
+  cases refSpecMain X a with
+  | error o => rfl
+  | ok s =>
+    simp only
+    rw [← ht]
+    unfold modelTarget
+    cases getTargetText F X a w with
+    | error o => rfl
+    | ok text =>
+      simp only [runWith]
+      cases handleTarget F X text (a.targetFormat.getD F.targetDefault) with
+      | error o => rfl
+      | ok t => exact glomCli_total wf X a w t s
+
+/-! ### face's parser on the canonical command line (for the table as extracted) -/
+
+theorem step_str (E : PEnv) (name key : String) (v : String) (rest : List String) (fm : FlagMap)
+    (hs : splitEq name = (name, none)) (hl : genTable.lookup name = some ⟨key, "str", "error"⟩)
+    (he : endsFlags name = false) (hk : (key == genTable.flagfile) = false) :
+    parseFlags genTable E (name :: v :: rest) fm [] [] = parseFlags genTable E rest (fm ++ [(key, .str v)]) [] [] := by
+  rw [parseFlags]
+  unfold endsFlags at he
+  simp only [he, Bool.false_eq_true, if_false]
+  simp [parseSingleFlag, hs, hl, convArg, mergeFlagfile, hk, Except.map]
+
+theorem step_int (E : PEnv) (name key : String) (v : String) (n : Int) (rest : List String) (fm : FlagMap)
+    (hs : splitEq name = (name, none)) (hl : genTable.lookup name = some ⟨key, "int", "error"⟩)
+    (he : endsFlags name = false) (hk : (key == genTable.flagfile) = false) (hn : E.parseInt v = some n) :
+    parseFlags genTable E (name :: v :: rest) fm [] [] = parseFlags genTable E rest (fm ++ [(key, .int n)]) [] [] := by
+  rw [parseFlags]
+  unfold endsFlags at he
+  simp only [he, Bool.false_eq_true, if_false]
+  simp [parseSingleFlag, hs, hl, convArg, mergeFlagfile, hk, Except.map, hn]
+
+theorem step_const (E : PEnv) (name key : String) (rest : List String) (fm : FlagMap)
+    (hs : splitEq name = (name, none)) (hl : genTable.lookup name = some ⟨key, "const", "error"⟩)
+    (he : endsFlags name = false) (hk : (key == genTable.flagfile) = false) :
+    parseFlags genTable E (name :: rest) fm [] [] = parseFlags genTable E rest (fm ++ [(key, .on)]) [] [] := by
+  rw [parseFlags]
+  unfold endsFlags at he
+  simp only [he, Bool.false_eq_true, if_false]
+  simp [parseSingleFlag, hs, hl, mergeFlagfile, hk, truthy]
+
+theorem parseFlags_pos (E : PEnv) (pos : List String) (fm : FlagMap)
+    (h : (match pos with | p :: _ => endsFlags p | [] => true) = true) :
+    parseFlags genTable E pos fm [] [] = .ok (fm, pos) := by
+  cases pos with
+  | nil => rw [parseFlags]
+  | cons p ps =>
+    rw [parseFlags]
+    simp only [endsFlags] at h
+    rw [if_pos h]
+
+/-- an optional entry of the flag map -/
+def ent (k : String) (o : Option FVal) : FlagMap := (o.map (fun v => (k, v))).toList
+
+def onOpt (b : Bool) : Option FVal := if b then some .on else none
+
+/-- the flag map the canonical command line of `a` produces -/
+def fmOf (a : Argv) : FlagMap :=
+  ent "target_file" (a.targetFile.map .str) ++ ent "target_format" (a.targetFormat.map .str) ++
+  ent "spec_file" (a.specFile.map .str) ++ ent "spec_format" (a.specFormat.map .str) ++
+  ent "indent" (a.indent.map .int) ++ ent "scalar" (onOpt a.scalar) ++ ent "debug" (onOpt a.debug) ++
+  ent "inspect" (onOpt a.inspect)
+
+theorem ent_filter (k n : String) (o : Option FVal) :
+    (ent k o).filter (fun e => e.1 == n) = if k == n then ent k o else [] := by
+  cases o with
+  | none => simp [ent]
+  | some v => by_cases h : k = n <;> simp [ent, h]
+
+theorem ent_length (k : String) (o : Option FVal) : (ent k o).length ≤ 1 := by
+  cases o <;> simp [ent]
+
+theorem ent_last (k : String) (o : Option FVal) : ((ent k o).getLast?).map (·.2) = o := by
+  cases o <;> simp [ent]
+
+theorem ent_any (k n : String) (o : Option FVal) (h : (k == n) = false) :
+    (ent k o).any (fun e => e.1 == n) = false := by
+  cases o <;> simp [ent, h]
+
+theorem parseFlags_render (E : PEnv) (hi : ∀ n : Int, E.parseInt (toString n) = some n) (a : Argv)
+    (hp : (match a.posargs with | p :: _ => endsFlags p | [] => true) = true) :
+    parseFlags genTable E a.render [] [] [] = .ok (fmOf a, a.posargs) := by
+  have k1 : ∀ (v : String) rest fm, parseFlags genTable E ("--target-file" :: v :: rest) fm [] [] = _ :=
+    fun v rest fm => step_str E "--target-file" "target_file" v rest fm (by decide +kernel) (by decide +kernel) (by decide +kernel) (by decide +kernel)
+  have k2 : ∀ (v : String) rest fm, parseFlags genTable E ("--target-format" :: v :: rest) fm [] [] = _ :=
+    fun v rest fm => step_str E "--target-format" "target_format" v rest fm (by decide +kernel) (by decide +kernel) (by decide +kernel) (by decide +kernel)
+  have k3 : ∀ (v : String) rest fm, parseFlags genTable E ("--spec-file" :: v :: rest) fm [] [] = _ :=
+    fun v rest fm => step_str E "--spec-file" "spec_file" v rest fm (by decide +kernel) (by decide +kernel) (by decide +kernel) (by decide +kernel)
+  have k4 : ∀ (v : String) rest fm, parseFlags genTable E ("--spec-format" :: v :: rest) fm [] [] = _ :=
+    fun v rest fm => step_str E "--spec-format" "spec_format" v rest fm (by decide +kernel) (by decide +kernel) (by decide +kernel) (by decide +kernel)
+  have hi' : ∀ n : Int, E.parseInt n.repr = some n := fun n => by simpa using hi n
+  have k5 : ∀ (n : Int) rest fm, parseFlags genTable E ("--indent" :: n.repr :: rest) fm [] [] = _ :=
+    fun n rest fm => step_int E "--indent" "indent" n.repr n rest fm (by decide +kernel) (by decide +kernel) (by decide +kernel) (by decide +kernel) (hi' n)
+  have k6 : ∀ rest fm, parseFlags genTable E ("--scalar" :: rest) fm [] [] = _ :=
+    fun rest fm => step_const E "--scalar" "scalar" rest fm (by decide +kernel) (by decide +kernel) (by decide +kernel) (by decide +kernel)
+  have k7 : ∀ rest fm, parseFlags genTable E ("--debug" :: rest) fm [] [] = _ :=
+    fun rest fm => step_const E "--debug" "debug" rest fm (by decide +kernel) (by decide +kernel) (by decide +kernel) (by decide +kernel)
+  have k8 : ∀ rest fm, parseFlags genTable E ("--inspect" :: rest) fm [] [] = _ :=
+    fun rest fm => step_const E "--inspect" "inspect" rest fm (by decide +kernel) (by decide +kernel) (by decide +kernel) (by decide +kernel)
+  have kp := fun fm => parseFlags_pos E a.posargs fm hp
+  unfold Argv.render fmOf optFlag ent onOpt
+  cases a.targetFile <;> cases a.targetFormat <;> cases a.specFile <;> cases a.specFormat <;> cases a.indent <;>
+    cases a.scalar <;> cases a.debug <;> cases a.inspect <;>
+    simp [k1, k2, k3, k4, k5, k6, k7, k8, kp]
+
+theorem flagVal_fmOf (a : Argv) :
+    flagVal (fmOf a) "target_file" = a.targetFile.map .str ∧ flagVal (fmOf a) "target_format" = a.targetFormat.map .str ∧
+    flagVal (fmOf a) "spec_file" = a.specFile.map .str ∧ flagVal (fmOf a) "spec_format" = a.specFormat.map .str ∧
+    flagVal (fmOf a) "indent" = a.indent.map .int ∧ flagVal (fmOf a) "scalar" = onOpt a.scalar ∧
+    flagVal (fmOf a) "debug" = onOpt a.debug ∧ flagVal (fmOf a) "inspect" = onOpt a.inspect := by
+  unfold flagVal fmOf
+  simp only [List.filter_append, ent_filter]
+  refine ⟨?_, ?_, ?_, ?_, ?_, ?_, ?_, ?_⟩ <;>
+    simp (decide := true) only [if_true, if_false, List.append_nil, List.nil_append, ent_last,
+      Bool.false_eq_true, reduceCtorEq]
+
+theorem argvOf_fmOf (a : Argv) : argvOf (fmOf a) a.posargs = a := by
+  obtain ⟨h1, h2, h3, h4, h5, h6, h7, h8⟩ := flagVal_fmOf a
+  unfold argvOf strVal intVal onVal
+  rw [h1, h2, h3, h4, h5, h6, h7, h8]
+  obtain ⟨pos, tf, tfm, sf, sfm, ind, sc, db, ins⟩ := a
+  cases tf <;> cases tfm <;> cases sf <;> cases sfm <;> cases ind <;> cases sc <;> cases db <;> cases ins <;> rfl
+
+theorem fmOf_no_help (a : Argv) : (fmOf a).any (fun e => e.1 == "help") = false := by
+  unfold fmOf
+  simp only [List.any_append, Bool.or_eq_false_iff]
+  refine ⟨⟨⟨⟨⟨⟨⟨?_, ?_⟩, ?_⟩, ?_⟩, ?_⟩, ?_⟩, ?_⟩, ?_⟩ <;> exact ent_any _ _ _ (by decide)
+
+theorem fmOf_no_dup (a : Argv) (n : String) : ((fmOf a).filter (fun e => e.1 == n)).length ≤ 1 := by
+  unfold fmOf
+  simp only [List.filter_append, ent_filter, List.length_append]
+  have := ent_length
+  by_cases h1 : n = "target_file"
+  · subst h1; simp (decide := true) [ent_length]
+  by_cases h2 : n = "target_format"
+  · subst h2; simp (decide := true) [ent_length]
+  by_cases h3 : n = "spec_file"
+  · subst h3; simp (decide := true) [ent_length]
+  by_cases h4 : n = "spec_format"
+  · subst h4; simp (decide := true) [ent_length]
+  by_cases h5 : n = "indent"
+  · subst h5; simp (decide := true) [ent_length]
+  by_cases h6 : n = "scalar"
+  · subst h6; simp (decide := true) [ent_length]
+  by_cases h7 : n = "debug"
+  · subst h7; simp (decide := true) [ent_length]
+  by_cases h8 : n = "inspect"
+  · subst h8; simp (decide := true) [ent_length]
+  have e : ∀ k : String, ¬ n = k → (k == n) = false := fun k h => by simpa using fun h' => h h'.symm
+  simp [e _ h1, e _ h2, e _ h3, e _ h4, e _ h5, e _ h6, e _ h7, e _ h8]
+
+
+theorem splitFirst_none {α : Type} [BEq α] [LawfulBEq α] (sep : α) (l : List α) (h : l.contains sep = false) :
+    splitFirst sep l = (l, none) := by
+  induction l with
+  | nil => rfl
+  | cons a l ih =>
+    simp only [List.contains_cons, Bool.or_eq_false_iff] at h
+    have ha : (a == sep) = false := by
+      rw [← h.1]; exact Bool.eq_iff_iff.mpr ⟨fun e => by simpa using (eq_of_beq e).symm, fun e => by simpa using (eq_of_beq e).symm⟩
+    rw [splitFirst, ha, ih h.2]
+    rfl
+
+theorem splitDashDash_none (pos : List String) (h : pos.contains "--" = false) : splitDashDash pos = (pos, none) :=
+  splitFirst_none "--" pos h
+
+theorem checkPosargs_ok (pos : List String) (h : posargsOk pos = true) : checkPosargs genTable pos = .ok pos := by
+  unfold posargsOk at h
+  simp only [Bool.and_eq_true, decide_eq_true_eq, Bool.not_eq_eq_eq_not, Bool.not_true] at h
+  obtain ⟨⟨hl, _⟩, hd⟩ := h
+  unfold checkPosargs
+  rw [splitDashDash_none pos hd]
+  have h1 : genTable.postPosargs = false := by decide +kernel
+  have h2 : genTable.posMax = some 2 := by decide +kernel
+  simp only [h1, h2]
+  simp
+  omega
+
+/-- `int(str(n)) == n` — the trusted fact about Python the canonical `--indent N` relies on -/
+def IntReprOk (E : PEnv) : Prop := ∀ n : Int, E.parseInt (toString n) = some n
+
+/-- the canonical command line of a set of flags parses back to exactly these flags -/
+theorem parseArgv_render (E : PEnv) (hi : IntReprOk E) (a : Argv) (hp : posargsOk a.posargs = true)
+    (prog : String) : parseArgv genTable E (prog :: a.render) = .ok a := by
+  have hp' : (match a.posargs with | p :: _ => endsFlags p | [] => true) = true := by
+    unfold posargsOk at hp
+    simp only [Bool.and_eq_true] at hp
+    exact hp.1.2
+  unfold parseArgv
+  simp only
+  rw [parseFlags_render E hi a hp']
+  have hh : genTable.help = "help" := by decide +kernel
+  have hdup : duplicated genTable (fmOf a) = false := by
+    unfold duplicated
+    rw [List.any_eq_false]
+    intro f _
+    have := fmOf_no_dup a f.name
+    have hlt : decide ((List.filter (fun x => x.1 == f.name) (fmOf a)).length > 1) = false := by
+      simp; omega
+    simp [hlt]
+  simp only [hh, fmOf_no_help a, Bool.and_false, hdup, Bool.false_eq_true, if_false, checkPosargs_ok _ hp,
+    argvOf_fmOf]
+
+
+/-! ### exit status -/
+
+/-- an outcome that carries no exit code of its own: status 1, nothing on standard output -/
+def Outcome.isFailure : Outcome → Bool
+  | .exit _ _ => false
+  | _ => true
+
+theorem readFail_failure (X : Ext T S R) (names : List String) (u : Usage) (c : String) :
+    (readFail X names u c).isFailure = true := by
+  unfold readFail; split <;> rfl
+
+theorem liftExc_err (r : Except String S) (o : Outcome) (h : liftExc r = .error o) : o.isFailure = true := by
+  cases r with
+  | ok s => simp [liftExc] at h
+  | error c => simp [liftExc] at h; subst h; rfl
+
+theorem parseSpec_err (F : Facts) (X : Ext T S R) (fmt t : String) (o : Outcome)
+    (h : parseSpec F X fmt t = .error o) : o.isFailure = true := by
+  unfold parseSpec at h
+  split at h
+  · cases h; rfl
+  · exact liftExc_err _ _ h
+
+theorem getSpec_err (F : Facts) (X : Ext T S R) (a : Argv) (o : Outcome) (h : getSpec F X a = .error o) :
+    o.isFailure = true := by
+  unfold getSpec at h
+  dsimp only at h
+  split at h
+  · cases h; rfl
+  · split at h
+    · rename_i o' heq
+      cases h
+      split at heq
+      · split at heq
+        · cases heq
+        · cases heq; exact readFail_failure _ _ _ _
+      · cases heq
+    · split at h
+      · cases h
+      · exact parseSpec_err _ _ _ _ _ h
+
+theorem readStdin_err (F : Facts) (X : Ext T S R) (w : World) (o : Outcome) (h : readStdin F X w = .error o) :
+    o.isFailure = true := by
+  unfold readStdin at h
+  split at h
+  · cases h
+  · cases h; exact readFail_failure _ _ _ _
+
+theorem getTargetText_err (F : Facts) (X : Ext T S R) (a : Argv) (w : World) (o : Outcome)
+    (h : getTargetText F X a w = .error o) : o.isFailure = true := by
+  unfold getTargetText at h
+  dsimp only at h
+  split at h
+  · cases h; rfl
+  · split at h
+    · exact readStdin_err F X w o h
+    · split at h
+      · split at h
+        · cases h
+        · cases h; exact readFail_failure _ _ _ _
+      · split at h
+        · exact readStdin_err F X w o h
+        · cases h
+
+theorem handleTarget_err (F : Facts) (X : Ext T S R) (text : Option String) (fmt : String) (o : Outcome)
+    (h : handleTarget F X text fmt = .error o) : o.isFailure = true := by
+  unfold handleTarget at h
+  split at h
+  · cases h
+  · split at h
+    · cases h; rfl
+    · unfold liftLoad at h
+      split at h
+      · cases h
+      · split at h <;> (cases h; rfl)
+
+theorem glomCli_status (X : Ext T S R) (so : Bool) (t : T) (s : S) (indent : Int) (d i sc : Bool) :
+    (glomCli X so t s indent d i sc).status ≤ 1 := by
+  unfold glomCli
+  dsimp only
+  split
+  · simp [Outcome.status]
+  · simp [Outcome.status]
+  · split
+    · simp [Outcome.status]
+    · split <;> simp [Outcome.status]
+
+theorem failure_status (o : Outcome) (h : o.isFailure = true) : o.status = 1 ∧ o.stdout = "" := by
+  cases o <;> simp_all [Outcome.isFailure, Outcome.status, Outcome.stdout]
+
+theorem cliMain_status (F : Facts) (X : Ext T S R) (a : Argv) (w : World) : (cliMain F X a w).status ≤ 1 := by
+  unfold cliMain
+  split
+  · rename_i o h; rw [(failure_status o (getSpec_err F X a o h)).1]; exact Nat.le_refl 1
+  · split
+    · rename_i o h; rw [(failure_status o (getTargetText_err F X a w o h)).1]; exact Nat.le_refl 1
+    · unfold runWith
+      split
+      · rename_i o h; rw [(failure_status o (handleTarget_err F X _ _ o h)).1]; exact Nat.le_refl 1
+      · exact glomCli_status _ _ _ _ _ _ _ _
+
+theorem glomCli_exit (X : Ext T S R) (so : Bool) (t : T) (s : S) (indent : Int) (d i sc : Bool) (c : Nat)
+    (out : String) (h : glomCli X so t s indent d i sc = .exit c out) :
+    (c = 0 ∧ ∃ r, X.glom t (wrapSpec X so s d i) = .ok r ∧
+      (out = X.printed t (wrapSpec X so s d i) ++ X.str r ∨
+       ∃ js, X.dumps r (if indent == 0 then none else some indent) = .ok js ∧
+         out = X.printed t (wrapSpec X so s d i) ++ (js ++ "\n"))) ∨
+    (c = 1 ∧ ∃ cls msg, X.glom t (wrapSpec X so s d i) = .glomError cls msg ∧
+      out = X.printed t (wrapSpec X so s d i) ++ (cls ++ ": " ++ msg ++ "\n")) := by
+  unfold glomCli at h
+  dsimp only at h
+  split at h
+  · rename_i cls msg hg
+    cases h
+    exact Or.inr ⟨rfl, cls, msg, hg, rfl⟩
+  · cases h
+  · rename_i r hg
+    split at h
+    · cases h; exact Or.inl ⟨rfl, r, hg, Or.inl rfl⟩
+    · split at h
+      · rename_i js hd
+        cases h; exact Or.inl ⟨rfl, r, hg, Or.inr ⟨js, hd, rfl⟩⟩
+      · cases h
+
+/-- whenever `main` on parsed flags ends with an exit code of its own, the handler `glom_cli` ran -/
+theorem cliMain_exit (F : Facts) (X : Ext T S R) (a : Argv) (w : World) (c : Nat) (out : String)
+    (h : cliMain F X a w = .exit c out) :
+    ∃ s t, getSpec F X a = .ok s ∧
+      glomCli X w.stdinOpen t s (a.indent.getD F.indentDefault) a.debug a.inspect a.scalar = .exit c out := by
+  unfold cliMain at h
+  split at h
+  · rename_i o hs
+    have := getSpec_err F X a o hs
+    subst h; cases this
+  · rename_i s hs
+    split at h
+    · rename_i o ht
+      have := getTargetText_err F X a w o ht
+      subst h; cases this
+    · unfold runWith at h
+      split at h
+      · rename_i o ht
+        have := handleTarget_err F X _ _ o ht
+        subst h; cases this
+      · rename_i t _
+        exact ⟨s, t, hs, h⟩
+
+/-! ### where the value of a flag comes from -/
+
+theorem parseSingleFlag_str (tbl : Table) (E : PEnv) (arg : String) (rest : List String) (f : FlagSpec)
+    (s : String) (adv : Bool) (h : parseSingleFlag tbl E arg rest = .ok (f, .str s, adv)) :
+    tbl.lookup (splitEq arg).1 = some f ∧ ((splitEq arg).2 = some s ∨ ∃ r, rest = s :: r) := by
+  unfold parseSingleFlag at h
+  dsimp only at h
+  split at h
+  · cases h
+  · rename_i f' hl
+    split at h
+    · split at h <;> cases h
+    · have hconv : ∀ t v, convArg E f' t = .ok (FVal.str v) → v = t := by
+        intro t v hc
+        unfold convArg at hc
+        split at hc
+        · split at hc <;> cases hc
+        · cases hc; rfl
+      simp only [Except.map] at h
+      split at h
+      · rename_i ht
+        split at h
+        · cases h
+        · rename_i v hc
+          cases h
+          exact ⟨hl, Or.inl (by rw [ht, hconv _ s hc])⟩
+      · split at h
+        · cases h
+        · rename_i v hc
+          cases h
+          exact ⟨hl, Or.inr ⟨_, by rw [hconv _ s hc]⟩⟩
+      · cases h
+
+theorem parseSingleFlag_lookup (tbl : Table) (E : PEnv) (arg : String) (rest : List String) (f : FlagSpec)
+    (v : FVal) (adv : Bool) (h : parseSingleFlag tbl E arg rest = .ok (f, v, adv)) :
+    tbl.lookup (splitEq arg).1 = some f := by
+  unfold parseSingleFlag at h
+  dsimp only at h
+  split at h
+  · cases h
+  · rename_i f' hl
+    split at h
+    · split at h
+      · cases h
+      · cases h; exact hl
+    · simp only [Except.map] at h
+      split at h
+      · split at h
+        · cases h
+        · cases h; exact hl
+      · split at h
+        · cases h
+        · cases h; exact hl
+      · cases h
+
+theorem parseFlags_from_args (tbl : Table) (E : PEnv) (all : List String) :
+    ∀ (n : Nat) (args : List String) (fm : FlagMap) (ff : FFMap) (seen : List String) (fm' : FlagMap)
+      (pos : List String), args.length ≤ n → (∀ x ∈ args, x ∈ all) → usesFlagfile tbl args = false →
+      (∀ k v, (k, FVal.str v) ∈ fm → FromArgs all v) →
+      parseFlags tbl E args fm ff seen = .ok (fm', pos) →
+      (∀ k v, (k, FVal.str v) ∈ fm' → FromArgs all v) ∧ (∀ x ∈ pos, x ∈ all) := by
+  intro n
+  induction n with
+  | zero =>
+    intro args fm ff seen fm' pos hl hsub _ hfm h
+    have : args = [] := List.length_eq_zero_iff.mp (Nat.le_zero.mp hl)
+    subst this
+    rw [parseFlags] at h
+    cases h
+    exact ⟨hfm, fun x hx => by cases hx⟩
+  | succ n ih =>
+    intro args fm ff seen fm' pos hl hsub hnf hfm h
+    cases args with
+    | nil =>
+      rw [parseFlags] at h
+      cases h
+      exact ⟨hfm, fun x hx => by cases hx⟩
+    | cons arg rest =>
+      rw [parseFlags] at h
+      split at h
+      · cases h
+        exact ⟨hfm, hsub⟩
+      · split at h
+        · cases h
+        · rename_i f v adv hps
+          have hlook := parseSingleFlag_lookup tbl E arg rest f v adv hps
+          have hnff : (f.name == tbl.flagfile) = false := by
+            unfold usesFlagfile at hnf
+            simp only [List.any_cons, Bool.or_eq_false_iff] at hnf
+            have := hnf.1
+            rw [hlook] at this
+            exact this
+          have hmerge : mergeFlagfile tbl E f v (fm ++ [(f.name, v)]) ff seen = .ok (fm ++ [(f.name, v)], ff, seen) := by
+            unfold mergeFlagfile
+            simp [hnff]
+          rw [hmerge] at h
+          simp only at h
+          have hrest_sub : ∀ x ∈ rest, x ∈ all := fun x hx => hsub x (List.mem_cons_of_mem _ hx)
+          have hrest_nf : usesFlagfile tbl rest = false := by
+            unfold usesFlagfile at hnf ⊢
+            simp only [List.any_cons, Bool.or_eq_false_iff] at hnf
+            exact hnf.2
+          have hfm2 : ∀ k s, (k, FVal.str s) ∈ fm ++ [(f.name, v)] → FromArgs all s := by
+            intro k s hm
+            rw [List.mem_append] at hm
+            rcases hm with hm | hm
+            · exact hfm k s hm
+            · simp only [List.mem_singleton, Prod.mk.injEq] at hm
+              obtain ⟨_, hv⟩ := hm
+              subst hv
+              obtain ⟨_, hsrc⟩ := parseSingleFlag_str tbl E arg rest f s adv hps
+              rcases hsrc with hsrc | ⟨r, hr⟩
+              · exact Or.inr ⟨arg, hsub arg List.mem_cons_self, hsrc⟩
+              · exact Or.inl (hrest_sub s (by rw [hr]; exact List.mem_cons_self))
+          have hlen : rest.length ≤ n := by simp only [List.length_cons] at hl; omega
+          split at h
+          · split at h
+            · rename_i r' _
+              refine ih _ _ _ _ _ _ ?_ ?_ ?_ hfm2 h
+              · simp only [List.length_cons] at hlen; omega
+              · exact fun x hx => hrest_sub x (List.mem_cons_of_mem _ hx)
+              · unfold usesFlagfile at hrest_nf ⊢
+                simp only [List.any_cons, Bool.or_eq_false_iff] at hrest_nf
+                exact hrest_nf.2
+            · cases h
+              exact ⟨hfm2, fun x hx => by cases hx⟩
+          · exact ih _ _ _ _ _ _ hlen hrest_sub hrest_nf hfm2 h
+
+theorem fromArgs_of_mentions_false (args : List String) (v : String) (h : mentions args v = false) :
+    ¬ FromArgs args v := by
+  unfold mentions at h
+  simp only [Bool.or_eq_false_iff, List.any_eq_false, beq_iff_eq] at h
+  rintro (hm | ⟨x, hx, hs⟩)
+  · have := h.1; simp at this; exact this hm
+  · exact h.2 x hx hs
+
+theorem flagVal_mem (fm : FlagMap) (name : String) (v : FVal) (h : flagVal fm name = some v) : (name, v) ∈ fm := by
+  unfold flagVal at h
+  cases hl : (fm.filter (fun e => e.1 == name)).getLast? with
+  | none => simp [hl] at h
+  | some e =>
+    simp only [hl, Option.map_some, Option.some.injEq] at h
+    have hm := List.mem_of_getLast? hl
+    rw [List.mem_filter] at hm
+    obtain ⟨hm1, hm2⟩ := hm
+    have : e = (name, v) := by
+      cases e with
+      | mk a b => simp only at h hm2; simp only [beq_iff_eq] at hm2; subst h; subst hm2; rfl
+    rw [← this]; exact hm1
+
+/-- the spec format a command line parses to stands on that command line (no flagfile in play) -/
+theorem parseArgv_specFormat_from_args (tbl : Table) (E : PEnv) (prog : String) (args : List String)
+    (a : Argv) (v : String) (h : parseArgv tbl E (prog :: args) = .ok a) (hv : a.specFormat = some v)
+    (hnf : usesFlagfile tbl args = false) : FromArgs args v := by
+  unfold parseArgv at h
+  simp only at h
+  split at h
+  · cases h
+  · rename_i fm pos hpf
+    split at h
+    · cases h
+    · split at h
+      · cases h
+      · rename_i pos' _
+        cases h
+        simp only [argvOf] at hv
+        unfold strVal at hv
+        split at hv
+        · rename_i s hfv
+          cases hv
+          have hmem := flagVal_mem fm "spec_format" (.str v) hfv
+          exact (parseFlags_from_args tbl E args args.length args [] [] [] fm pos (Nat.le_refl _)
+            (fun x hx => hx) hnf (fun k v hm => by cases hm) hpf).1 _ _ hmem
+        · cases hv
+
+theorem channelsAgree_of_all_eq (outs : List Outcome) (d : Outcome) (h : ∀ o ∈ outs, o = d) :
+    channelsAgree outs = true := by
+  cases outs with
+  | nil => rfl
+  | cons o rest =>
+    simp only [channelsAgree, List.all_eq_true]
+    intro o' ho'
+    rw [h o (List.mem_cons_self), h o' (List.mem_cons_of_mem _ ho')]
+    exact beq_self_eq_true _
+
+theorem all_zip_map {α β : Type} (l : List α) (f : α → β) (p : α × β → Bool)
+    (h : ∀ a ∈ l, p (a, f a) = true) : (l.zip (l.map f)).all p = true := by
+  induction l with
+  | nil => rfl
+  | cons a l ih =>
+    simp only [List.map_cons, List.zip_cons_cons, List.all_cons, Bool.and_eq_true]
+    exact ⟨h a List.mem_cons_self, ih (fun b hb => h b (List.mem_cons_of_mem _ hb))⟩
 
 end Glom.C19
